@@ -169,34 +169,66 @@ def run(prop, tier):
         # cascades: stage values never increase along a valid cascade; data cascade = sum of databook entries; plotting / exporting leaves the result unchanged
         from atomica.cascade import get_cascade_vals, get_cascade_data
 
-        for cname in P.framework.cascades.keys():
+        import sciris as sc
+
+        casc_mod = __import__("atomica.cascade", fromlist=["sanitize_cascade"])
+        # ad hoc cascades: stages listed as several constituents, a later stage re-using constituents of an earlier one (in both orders)
+        withdata = [n for n in list(P.framework.comps.index) + list(P.framework.characs.index)
+                    if P.data.get_ts(n, m["pops"][0]) is not None and P.data.get_ts(n, m["pops"][0]).has_time_data]
+        adhoc = []
+        for x in withdata[:4]:
+            for y in withdata[:4]:
+                if x != y:
+                    adhoc.append(sc.odict([("S1", [x, y]), ("S2", [x])]))
+                    adhoc.append(sc.odict([("S1", [x, y]), ("S2", [y])]))
+        valid_adhoc = []
+        for cd_ in adhoc:
+            try:
+                casc_mod.sanitize_cascade(P.framework, cd_)
+                valid_adhoc.append(cd_)
+            except Exception:
+                pass  # not a valid cascade for this framework (stages not nested)
+        cov["adhoc_cascades"] = cov.get("adhoc_cascades", 0) + len(valid_adhoc)
+        # data years: the library databooks mostly hold one year of cascade data, so later years get distinguishable entries (a copy of the databook)
+        cdata = sc.dcp(P.data)
+        for n_ in list(P.framework.comps.index) + list(P.framework.characs.index):
+            for pi_, pp in enumerate(cdata.pops.keys()):
+                ts = cdata.get_ts(n_, pp)
+                if ts is not None and ts.has_time_data:
+                    v0 = float(ts.vals[0])
+                    for yi_, yr_ in enumerate(cdata.tvec):
+                        if float(yr_) not in [float(x) for x in ts.t]:
+                            ts.insert(float(yr_), v0 * (1.0 + 0.125 * (yi_ + 1)) + pi_)
+        for cname in list(P.framework.cascades.keys()) + valid_adhoc[: (None if thorough else 6)]:
+            cdesc = cname if isinstance(cname, str) else dict(cname)
             for pops_ in (["all"] + m["pops"][:2]):
                 vals, t = get_cascade_vals(res, cname, pops=pops_)
                 stages = list(vals.keys())
                 for ti in range(0, len(t), max(1, len(t) // 12)):
                     records.append(dict(id=rid, kind="order", vals=FX.fixseq([float(vals[s][ti]) for s in stages])))
-                    index[rid] = dict(model=mname, cascade=cname, pops=pops_, ti=ti, stages=stages, vals=[float(vals[s][ti]) for s in stages])
+                    index[rid] = dict(model=mname, cascade=cdesc, pops=pops_, ti=ti, stages=stages, vals=[float(vals[s][ti]) for s in stages])
                     rid += 1
-                dvals, dt_ = get_cascade_data(P.data, P.framework, cascade=cname, pops=pops_)
-                _, cdict, _ = __import__("atomica.cascade", fromlist=["sanitize_cascade"]).sanitize_cascade(P.framework, cname)
-                plist = m["pops"] if pops_ == "all" else [pops_]
-                plist = list(P.data.pops.keys()) if pops_ == "all" else plist
-                for stage, cons in cdict.items():
-                    cons = [cons] if isinstance(cons, str) else cons
-                    for yi, yr in enumerate(dt_):
-                        parts = []
-                        for code in cons:
-                            for pp in plist:
-                                ts = P.data.get_ts(code, pp)
-                                hit = [v for tt, v in zip(ts.t, ts.vals) if tt == yr] if ts is not None else []
-                                parts.append(hit[0] if hit else np.nan)
-                        o = float(dvals[stage][yi])
-                        if np.all(np.isfinite(parts)) and np.isfinite(o):
-                            records.append(dict(id=rid, kind="arith", method="sum", obs=FX.fix(o), parts=FX.fixseq(parts), weights=[]))
-                            index[rid] = dict(model=mname, level="data cascade", cascade=cname, stage=stage, pops=pops_, year=float(yr), obs=o, parts=[float(x) for x in parts])
-                            rid += 1
-                        elif np.all(np.isfinite(parts)) != np.isfinite(o):
-                            V.violation("C20 data cascade NaN mismatch", dict(model=mname, cascade=cname, stage=stage, pops=pops_, year=float(yr), obs=o, parts=[float(x) for x in parts]))
+                _, cdict, _ = casc_mod.sanitize_cascade(P.framework, cname)
+                plist = list(P.data.pops.keys()) if pops_ == "all" else [pops_]
+                dyears = [float(y) for y in cdata.tvec]
+                for year in [None, dyears[0], dyears[::-1][:3], dyears[:2]]:
+                    dvals, dt_ = get_cascade_data(cdata, P.framework, cascade=cname, pops=pops_, year=year)
+                    for stage, cons in cdict.items():
+                        cons = [cons] if isinstance(cons, str) else cons
+                        for yi, yr in enumerate(dt_):
+                            parts = []
+                            for code in cons:
+                                for pp in plist:
+                                    ts = cdata.get_ts(code, pp)
+                                    hit = [v for tt, v in zip(ts.t, ts.vals) if tt == yr] if ts is not None else []
+                                    parts.append(hit[0] if hit else np.nan)
+                            o = float(dvals[stage][yi])
+                            if np.all(np.isfinite(parts)) and np.isfinite(o):
+                                records.append(dict(id=rid, kind="arith", method="sum", obs=FX.fix(o), parts=FX.fixseq(parts), weights=[]))
+                                index[rid] = dict(model=mname, level="data cascade", cascade=cdesc, stage=stage, pops=pops_, year=float(yr), years_requested=year, obs=o, parts=[float(x) for x in parts])
+                                rid += 1
+                            elif np.all(np.isfinite(parts)) != np.isfinite(o):
+                                V.violation("C20 data cascade NaN mismatch", dict(model=mname, cascade=cdesc, stage=stage, pops=pops_, year=float(yr), obs=o, parts=[float(x) for x in parts]))
         # a sequence of plotting / export calls on one result
         import matplotlib
         import matplotlib.pyplot as plt
@@ -216,6 +248,35 @@ def run(prop, tier):
         records.append(dict(id=rid, kind="digest", before=before, after=DG.result_digest(res)))
         index[rid] = dict(model=mname, calls="PlotData, plot_series, plot_bars, plot_cascade, PlotData.programs, export_results, get_coverage, get_alloc")
         rid += 1
+        # histories that copy, pickle or save the result (all of which re-link the model): what is reported for a parameter's flow (a
+        # parameter may drive several links) is the same before and afterwards, on the original and on the copy, and is the sum of its links
+        import pickle
+
+        pop0 = res.model.get_pop(m["pops"][0])
+        multi = [p.name for p in pop0.pars if len(p.links) >= 2][:3] + [p.name for p in pop0.pars if len(p.links) == 1][:1]
+        if multi:
+            sel = ["%s:flow" % n for n in multi]
+
+            def flows(r_):
+                d_ = at.PlotData(r_, outputs=sel, pops=m["pops"][:1])
+                return {s_.output: [float(x) for x in s_.vals] for s_ in d_.series}
+
+            f0 = flows(res)
+            for n in multi:
+                par_ = pop0.get_par(n)
+                tot = np.sum([l.vals / l.dt for l in par_.links], axis=0)
+                for ti in (1, len(tot) // 2):
+                    records.append(dict(id=rid, kind="arith", method="sum", obs=FX.fix(float(f0["%s:flow" % n][ti])), parts=FX.fixseq([float(l.vals[ti] / l.dt) for l in par_.links]), weights=[]))
+                    index[rid] = dict(model=mname, level="flow of a parameter = sum of its links", item=n, ti=ti, obs=float(f0["%s:flow" % n][ti]), parts=[float(l.vals[ti] / l.dt) for l in par_.links])
+                    rid += 1
+            cp = sc.dcp(res)
+            pk = pickle.loads(pickle.dumps(res))
+            for what, r_ in (("original after sc.dcp and pickle", res), ("deep copy", cp), ("pickle round trip", pk)):
+                f1 = flows(r_)
+                records.append(dict(id=rid, kind="history", before=DG.dig(f0), after=DG.dig(f1)))
+                index[rid] = dict(model=mname, history=what, items=sel, before={k: v[1:3] for k, v in f0.items()}, after={k: v[1:3] for k, v in f1.items()})
+                rid += 1
+            cov.setdefault("history_items", []).extend(sel)
     bad, states = C.validate_batch(["Big", "AggregateTrace"], "AggregateTrace", records, ndjson=True, timeout=3000)
     cov["states"] += states
     cov["transitions"] += states
